@@ -451,7 +451,7 @@ class Parser:
                 for imply in options["imply"]:
                     target_sym = self.kconfigize_expr(imply[0])
                     if len(imply) > 1 and imply[1]:
-                        expr = self.infix_to_prefix(imply[1])
+                        expr = self.parse_expression(imply[1])
                         node.implies.append((target_sym, expr))
                     else:
                         node.implies.append((target_sym, self.kconfig.y))
